@@ -31,8 +31,11 @@ def plan(tier):
     for m in client.SCRIPT_METHODS:
         pl.units.append(U("I.%s" % m, "contracts.client", "h_status", (m,), setup=("contracts.client", "setup_typestate")))
 
+    pl.units.append(U("I.read_response", "contracts.reader", "h_read_response", (False,), setup=("contracts.reader", "setup_read_response")))
+
     def lf(u, label):
-        return label in ("W3.everything-sent-before-the-single-read", "W3.one-sendall-per-line", "S3.exactly-one-command")
+        return label in ("W3.everything-sent-before-the-single-read", "W3.one-sendall-per-line", "S3.exactly-one-command") \
+            or label.startswith("R3.") or ".loop0." in label
 
     pl.label_filter = lf
     pl.bounded = [bounded_sessions, bounded_status]
@@ -43,8 +46,9 @@ def plan(tier):
                      "bodies) and C14 (rename) per call; the induction over the call sequence needs the in-step invariant, which is "
                      "decided deductively only for its send side (one command, one read) and bounded for the read side"]
     pl.explanation = (
-        "Deductive: every script operation issues exactly one __send_command, and __send_command writes one command and "
-        "then performs exactly one response read (so requests and replies are paired one to one as long as each read "
+        "Deductive: every script operation issues exactly one __send_command, __send_command writes one command and "
+        "then performs exactly one response read, and that read (__read_response over the verified readers' contracts) "
+        "stops exactly at the status line, after reading every announced literal in full (so requests and replies are paired one to one as long as each read "
         "consumes exactly one reply). Bounded (labelled bounded): that each read stops at the end of its reply, over the "
         "status-reply pool with a content-returning sentinel; and seeded random sessions of 6 operations against the "
         "executable reference server with recv limits 1..4096, comparing the client's report with the server's store after "
